@@ -19,7 +19,7 @@ func init() {
 	register(&Check{
 		ID: "C08", Level: "exploration", Primary: "cells", EvalCount: "connections_checked",
 		Rule: "matrix: connection endings {client FIN, client RST, Unbind, malformed frame, unsupported operation, mid-frame disconnect, read-timeout expiry, recovered panic in an inline (unbind-route) handler, " +
-			"recovered panic in a request-goroutine handler followed by FIN, server Stop} x in-flight states {no handler, k handlers parked on a harness gate (with distinct message IDs, all with the same one, and parked only after they have sent their final response), handlers writing large responses, slow requests sent in the same write as the ending (dispatched just before the connection ends), the inline StartTLS handler blocked in a handshake the client never completes (plain transport; endings FIN, RST, read timeout, Stop), the same with two handlers of earlier requests parked} x transports {plain, TLS listener, " +
+			"recovered panic in a request-goroutine handler followed by FIN, server Stop} x in-flight states {no handler, k handlers parked on a harness gate (with distinct message IDs, all with the same one, and parked only after they have sent their final response), handlers writing large responses, slow requests sent in the same write as the ending (dispatched just before the connection ends), the inline StartTLS handler blocked in a handshake the client never completes (plain transport; endings FIN, RST, read timeout, Stop), the same with two handlers of earlier requests parked, two handlers parked BEFORE a StartTLS upgrade that succeeds (endings FIN, RST, Stop)} x transports {plain, TLS listener, " +
 			"StartTLS-upgraded}; every connection first makes one verified round trip (this maps the client socket to its ConnectionID). For endings where the client stays connected the gate is opened only after the " +
 			"client has watched its socket for a grace period: an EOF seen before the release is a certain violation. Offline oracle over the event log per connection ID: exactly one OnClose, stamped after " +
 			"the exit of every handler of that connection; at quiescence no goroutine with a gldap frame and no socket descriptor remain. distinct_nontrivial = distinct (ending, in-flight, transport) cells exercised",
@@ -27,7 +27,7 @@ func init() {
 		Phases: func(tier string, seed int64) []Phase {
 			return []Phase{{Name: "matrix", Run: c08Run}}
 		},
-		MinObserved: []string{"connections_checked", "onclose_events", "handler_exits_recorded", "eof_withheld_until_release_observed", "just_dispatched_endings_checked", "endings_with_a_starttls_handshake_pending", "connections_closed_while_another_connection_waits_for_its_handler", "connections_with_failed_writes_next_to_a_parked_handler", "tls_connections_ended_before_the_handshake", "endings_with_parked_handlers_and_a_starttls_handshake_pending"},
+		MinObserved: []string{"connections_checked", "onclose_events", "handler_exits_recorded", "eof_withheld_until_release_observed", "just_dispatched_endings_checked", "endings_with_a_starttls_handshake_pending", "connections_closed_while_another_connection_waits_for_its_handler", "connections_with_failed_writes_next_to_a_parked_handler", "tls_connections_ended_before_the_handshake", "endings_with_parked_handlers_and_a_starttls_handshake_pending", "endings_of_connections_upgraded_while_handlers_were_parked"},
 	})
 }
 
@@ -226,6 +226,31 @@ func c08OneCell(c *Ctx, wd *c08World, srv *Srv, cell c08Cell, stopper func()) {
 		for i := 0; i < k; i++ {
 			cl.Send(c08Search(int64(10+i), tag+";write"))
 		}
+	case "parked-across-upgrade":
+		// handlers of earlier requests are parked, THEN the connection is upgraded with StartTLS (the handshake
+		// succeeds): they are handlers of this connection before and after
+		k = 2
+		for i := 0; i < k; i++ {
+			cl.Send(c08Search(int64(10+i), tag+";park"))
+		}
+		for dl := time.Now().Add(patience); t.entered.Load() < int64(1+k) && time.Now().Before(dl); {
+			time.Sleep(100 * time.Microsecond)
+		}
+		cl.Send(sber.Message(20, sber.ExtendedRequest([]byte(sber.OIDStartTLS), nil, false), nil).Encode())
+		if m, err := cl.ReadMsg(patience); err != nil || m.ID != 20 {
+			c.Inconclusive(fmt.Sprintf("%v: no StartTLS response: %v", cell, err))
+			close(t.gate)
+			return
+		}
+		tc := tls.Client(cn, wd.pki.ClientPlain)
+		cn.SetDeadline(time.Now().Add(patience))
+		if err := tc.Handshake(); err != nil {
+			c.Inconclusive(fmt.Sprintf("%v: handshake: %v", cell, err))
+			close(t.gate)
+			return
+		}
+		cn.SetDeadline(time.Time{})
+		c.Count("endings_of_connections_upgraded_while_handlers_were_parked", 1)
 	case "parked+handshake-pending":
 		// handlers of earlier requests are parked AND the inline StartTLS handler sits in a handshake the client never
 		// completes: whatever ends that handshake must not end the connection under the parked handlers
@@ -331,7 +356,7 @@ func c08OneCell(c *Ctx, wd *c08World, srv *Srv, cell c08Cell, stopper func()) {
 	// 4. watch the socket; the gate opens only after the grace period
 	var releaseSeq int64
 	eofBeforeRelease := false
-	if clientStays && (cell.Inflight == "parked" || cell.Inflight == "parked-same-id" || cell.Inflight == "parked-after-answering" || cell.Inflight == "parked+handshake-pending") {
+	if clientStays && (cell.Inflight == "parked" || cell.Inflight == "parked-same-id" || cell.Inflight == "parked-after-answering" || cell.Inflight == "parked+handshake-pending" || cell.Inflight == "parked-across-upgrade") {
 		watch := 150 * time.Millisecond
 		if cell.Ending == "stop" {
 			// a server-initiated ending: hold the handlers well beyond any plausible internal grace period
@@ -701,6 +726,9 @@ func c08RunWith(c *Ctx, writeEntries, sweeps int) {
 	}
 	for _, e := range []string{"fin", "readtimeout", "stop"} {
 		cells = append(cells, c08Cell{e, "parked+handshake-pending", "plain"})
+	}
+	for _, e := range []string{"fin", "rst", "stop"} {
+		cells = append(cells, c08Cell{e, "parked-across-upgrade", "plain"})
 	}
 	reps := c.N(1, 50)
 	if sweeps > 0 {
